@@ -26,6 +26,7 @@ type Claim struct {
 	Lemmas      []string `json:"lemmas,omitempty"`
 	Replay      map[string]string `json:"replay,omitempty"` // obligation-name prefix -> replay template
 	SkipKinds   []string `json:"skip_kinds,omitempty"` // obligation kinds of these functions that belong to another property's claim
+	Extra       map[string][]string `json:"extra,omitempty"` // further functions of which only obligations of the listed kinds belong to this claim
 }
 
 type KnownFinding struct {
@@ -131,15 +132,29 @@ func cmdCheck(args []string) {
 	}
 	var obls []*Obligation
 	var results []*FuncResult
-	for _, fk := range cl.Functions {
+	var extraFns []string
+	for fk := range cl.Extra {
+		extraFns = append(extraFns, fk)
+	}
+	sort.Strings(extraFns)
+	for _, fk := range append(append([]string{}, cl.Functions...), extraFns...) {
 		r := v.VerifyFunc(fk)
-		if len(cl.SkipKinds) > 0 {
+		only, isExtra := cl.Extra[fk]
+		if len(cl.SkipKinds) > 0 || isExtra {
 			var keep []*Obligation
 			for _, o := range r.Obls {
 				skip := false
 				for _, k := range cl.SkipKinds {
 					if o.Kind == k {
 						skip = true
+					}
+				}
+				if isExtra {
+					skip = true
+					for _, k := range only {
+						if o.Kind == k {
+							skip = false
+						}
 					}
 				}
 				if !skip {
@@ -156,9 +171,17 @@ func cmdCheck(args []string) {
 	obls = append(obls, lemObls...)
 	outDir := filepath.Join(envOr("VERIF_OUT", filepath.Join(vdir, "out")), "smt", *prop)
 	os.RemoveAll(outDir)
-	d := &Discharger{Dir: outDir, Timeout: timeout, All: all}
+	d := &Discharger{Dir: outDir, Timeout: timeout, All: all, DeferCand: true}
 	d.Run(obls)
-	retried := d.Retry(obls, 4)
+	retried := d.Retry(obls, 4, func(o *Obligation) bool {
+		// a listed finding is reported as such either way: no need to wait for its full query again
+		for _, kf := range known {
+			if kf.Property == *prop && kf.Status == "known" && strings.HasPrefix(o.Name, kf.Obligation) {
+				return true
+			}
+		}
+		return false
+	})
 	groups := groupObls(obls)
 	byName := map[string]*Group{}
 	for _, g := range groups {
